@@ -172,51 +172,72 @@ func solveOne(u *UnitResult, o *OblResult, cfg solveConfig) (disagreement string
 	}
 	var verdicts []string
 	if !cfg.all {
-		// race: first definitive answer wins
+		// race: first definitive answer wins. A fourth racer runs the query without the global quantified
+		// address axioms: 'unsat' there implies 'unsat' of the full query (fewer assumptions); 'sat' there is a
+		// candidate countermodel that is accepted only if no solver refutes the full query within a grace period.
 		ctx, cancel := context.WithCancel(context.Background())
 		type res struct {
-			s solverSpec
-			r solveOut
+			name    string
+			relaxed bool
+			r       solveOut
 		}
-		ch := make(chan res, len(solvers))
+		n := len(solvers)
+		ch := make(chan res, n+1)
 		for _, s := range solvers {
-			go func(s solverSpec) { ch <- res{s, runSolverCtx(ctx, s, file, cfg.timeoutS)} }(s)
+			go func(s solverSpec) { ch <- res{s.name, false, runSolverCtx(ctx, s, file, cfg.timeoutS)} }(s)
+		}
+		rq := u.ctx.QueryX(o.Prefix, o.Goal, true, true)
+		if rq != q {
+			rfile := strings.TrimSuffix(file, ".smt2") + ".relaxed.smt2"
+			if os.WriteFile(rfile, []byte(rq), 0o644) == nil {
+				n++
+				go func() { ch <- res{solvers[0].name + "(relaxed)", true, runSolverCtx(ctx, solvers[0], rfile, cfg.timeoutS)} }()
+			}
 		}
 		t0 := time.Now()
-		for range solvers {
-			x := <-ch
-			if o.Status == "discharged" || o.Status == "failed" {
-				continue
-			}
-			o.Tried = append(o.Tried, x.s.name+":"+x.r.verdict)
-			verdicts = append(verdicts, x.r.verdict)
-			switch x.r.verdict {
-			case "unsat":
-				o.Status, o.Backend = "discharged", x.s.name
-				cancel()
-			case "sat":
-				o.Status, o.Backend, o.Model, o.Output = "failed", x.s.name, x.r.output, x.r.output
-				cancel()
-			default:
-				if o.Status == "" {
-					o.Status, o.Output = "unknown", x.r.output
+		var candidate *res
+		var grace <-chan time.Time
+		pending := n
+	loop:
+		for pending > 0 {
+			select {
+			case x := <-ch:
+				pending--
+				o.Tried = append(o.Tried, x.name+":"+x.r.verdict)
+				if !x.relaxed {
+					verdicts = append(verdicts, x.r.verdict)
 				}
+				switch {
+				case x.r.verdict == "unsat":
+					o.Status, o.Backend = "discharged", x.name
+					break loop
+				case x.r.verdict == "sat" && !x.relaxed:
+					o.Status, o.Backend, o.Model, o.Output = "failed", x.name, x.r.output, x.r.output
+					break loop
+				case x.r.verdict == "sat" && x.relaxed:
+					xx := x
+					candidate = &xx
+					g := 2 * time.Since(t0)
+					if g < 4*time.Second {
+						g = 4 * time.Second
+					}
+					grace = time.After(g)
+				default:
+					if o.Output == "" {
+						o.Output = x.r.output
+					}
+				}
+			case <-grace:
+				break loop
 			}
 		}
 		cancel()
-		if o.Status == "unknown" {
-			// candidate countermodel: the same query without the global quantified address axioms
-			rq := u.ctx.QueryX(o.Prefix, o.Goal, true, true)
-			if rq != q {
-				rfile := strings.TrimSuffix(file, ".smt2") + ".relaxed.smt2"
-				if os.WriteFile(rfile, []byte(rq), 0o644) == nil {
-					r := runSolver(solvers[0], rfile, cfg.timeoutS)
-					o.Tried = append(o.Tried, solvers[0].name+"(relaxed):"+r.verdict)
-					if r.verdict == "sat" {
-						o.Status, o.Backend, o.Model, o.Output = "failed", solvers[0].name+"(relaxed: candidate countermodel)", r.output, r.output
-						o.Relaxed = true
-					}
-				}
+		if o.Status == "" {
+			if candidate != nil {
+				o.Status, o.Backend, o.Model, o.Output = "failed", candidate.name+": candidate countermodel", candidate.r.output, candidate.r.output
+				o.Relaxed = true
+			} else {
+				o.Status = "unknown"
 			}
 		}
 		o.Ms = time.Since(t0).Milliseconds()
